@@ -865,6 +865,32 @@ func known(c Case, v *core.Violation) string {
 				return nil
 			}
 			var a []altT
+			// any part of the leading run of line breaks / blanks can go
+			// missing ("\n\n  A" comes back as "\nA"): every proper
+			// subsequence of the run, followed by the rest
+			run := []rune{}
+			for _, r := range s {
+				if !strings.ContainsRune("\n\r\t \u2028\u2029\u0085", r) {
+					break
+				}
+				run = append(run, r)
+			}
+			if k := len(run); k >= 2 && k <= 10 {
+				rest := s[len(string(run)):]
+				seen := map[string]bool{}
+				for mask := 0; mask < 1<<k-1; mask++ {
+					var b strings.Builder
+					for j := 0; j < k; j++ {
+						if mask&(1<<j) != 0 {
+							b.WriteRune(run[j])
+						}
+					}
+					if t := b.String() + rest; !seen[t] {
+						seen[t] = true
+						a = append(a, altT{t, nl})
+					}
+				}
+			}
 			for i, r := range s {
 				if !strings.ContainsRune("\n\r\t \u2028\u2029\u0085", r) {
 					// nested in a list or map the block scalar is also
